@@ -232,7 +232,10 @@ def run_check(pid, tier, seed, workers=None, cases=None, quiet=False):
                       "known": known}, hs[w]))
     # determinism echo: the first K cases again, in another interpreter, other hash seed
     K = min(cfg.get("echo", 48), n)
-    jobs.append(({"property": pid, "mode": "sweep", "seed": seed, "first": 0, "last": K,
+    # half of them the first cases, half spread over the whole range (other predecessors than in the sweep)
+    echo_idx = sorted(set(list(range(0, (K + 1) // 2)) + [int(i * n / max(1, K // 2)) for i in range(K // 2)]))
+    echo_idx = [i for i in echo_idx if i < n]
+    jobs.append(({"property": pid, "mode": "sweep", "seed": seed, "first": 0, "last": 0, "indices": echo_idx,
                   "step": 1, "tier_cfg": cfg, "shrink_s": 0, "known": known}, echo_hs))
     # directed cases of the known-findings file
     directed = [e for e in known if e.get("directed")]
@@ -316,7 +319,7 @@ def run_check(pid, tier, seed, workers=None, cases=None, quiet=False):
     if det["mismatches"] and pid == "C07":
         # C07: the outcome of a history depends on what the process executed before it
         for idx in det["mismatches"][:2]:
-            v = process_history_violation(pid, seed, cfg, idx, W, wall)
+            v = process_history_violation(pid, seed, cfg, idx, W, wall, pred_b=[i for i in echo_idx if i < idx])
             if v is None:
                 harness_errors.append({"type": "harness_error", "error": "C07 echo mismatch for case %d did not reproduce in fresh interpreters (flaky nondeterminism)" % idx})
             else:
